@@ -63,6 +63,32 @@ def configure_logging():
     lg.propagate = False
 
 
+def shrink_list(items, still_fails, budget=400):
+    """delta debugging on a list: a sub-list (order kept) that still fails, minimal w.r.t. removing one element or one
+    of the tried chunks; `still_fails(sub_list) -> bool`.  At most `budget` evaluations."""
+    items = list(items)
+    n = 2
+    calls = 0
+    while len(items) >= 2 and calls < budget:
+        chunk = max(1, len(items) // n)
+        reduced = False
+        for start in range(0, len(items), chunk):
+            cand = items[:start] + items[start + chunk:]
+            calls += 1
+            if cand and still_fails(cand):
+                items = cand
+                n = max(n - 1, 2)
+                reduced = True
+                break
+            if calls >= budget:
+                break
+        if not reduced:
+            if chunk == 1:
+                break
+            n = min(len(items), n * 2)
+    return items
+
+
 class log_level(object):
     """temporarily run the package logger at another level (the default of the package is INFO, --verbose is DEBUG)"""
 
